@@ -74,8 +74,8 @@ fn to_py(core: &Core, ind: usize) -> String {
         }
         Core::ExpressionType { expr, ty } => format!("{}: {}", to_py(expr, ind), to_py(ty, ind)),
         Core::DocStr { string } => format!("\"\"\"{string}\"\"\""),
-        Core::Str { string } => format!("\"{}\"", string.replace('\n', "\\n")),
-        Core::FStr { string } => format!("f\"{}\"", string.replace('\n', "\\n")),
+        Core::Str { string } => format!("\"{}\"", one_line(string)),
+        Core::FStr { string } => format!("f\"{}\"", one_line(string)),
         Core::Int { int } => decimal(int),
         Core::ENum { num, exp } => format!("({} * 10 ** {})", decimal(num), decimal(exp)),
         Core::Float { float } => float.clone(),
@@ -448,6 +448,11 @@ fn binary(left: &Core, op: &str, right: &Core, min: (usize, usize), ind: usize) 
         operand(left, min.0, ind),
         operand(right, min.1, ind)
     )
+}
+
+/// A string literal is written on one line: line breaks in it are escaped.
+fn one_line(string: &str) -> String {
+    string.replace('\r', "\\r").replace('\n', "\\n")
 }
 
 /// Python does not permit leading zeros in a decimal integer.
